@@ -120,16 +120,17 @@ func genBLengthStruct(w *codewriter, _ *golang.ReadWriteContext, varname string)
 }
 
 func genBLengthList(w *codewriter, rwctx *golang.ReadWriteContext, varname string, depth int) {
-	t := rwctx.Type
+	// NOTE: use the type of ValCtx instead of rwctx.Type.ValueType,
+	// the latter is nil if the list is declared through a typedef
+	vt := rwctx.ValCtx.Type
+
 	// list header
 	w.f("off += 5")
 
 	// if element is basic type like int32, we can speed up the calc by sizeof(int32) * len(l)
-	if t.ValueType != nil {
-		if sz := category2WireSize[t.ValueType.Category]; sz > 0 { // fast path for less code
-			w.f("off += len(%s) * %d", varnameVal(rwctx.IsPointer, varname), sz)
-			return
-		}
+	if sz := category2WireSize[vt.Category]; sz > 0 { // fast path for less code
+		w.f("off += len(%s) * %d", varnameVal(rwctx.IsPointer, varname), sz)
+		return
 	}
 
 	// iteration tmp var
@@ -143,9 +144,10 @@ func genBLengthList(w *codewriter, rwctx *golang.ReadWriteContext, varname strin
 }
 
 func genBLengthMap(w *codewriter, rwctx *golang.ReadWriteContext, varname string, depth int) {
-	t := rwctx.Type
-	kt := t.KeyType
-	vt := t.ValueType
+	// NOTE: use the types of KeyCtx and ValCtx instead of rwctx.Type.KeyType and rwctx.Type.ValueType,
+	// the latter are nil if the map is declared through a typedef
+	kt := rwctx.KeyCtx.Type
+	vt := rwctx.ValCtx.Type
 
 	// map header
 	w.f("off += 6")
